@@ -459,7 +459,8 @@ pub fn pool_op(rng: &mut Rng, c: &Corpus, sw: &Swarm, n: usize, focus: &str) -> 
                 4 => EOp::AffineMulFr(idx(rng, n), scalar_hex(rng)),
                 5 => EOp::AddAffine(idx(rng, n), idx(rng, n)),
                 6 => EOp::IntoGroup(idx(rng, n)),
-                _ => match rng.below(4) {
+                _ => match rng.below(6) {
+                    4 | 5 => EOp::OperatorForm(rng.below(24) as u8, idx(rng, n), idx(rng, n), scalar_hex(rng)),
                     0 => EOp::AddOtherRep(idx(rng, n)),
                     1 => EOp::AddDecoded(idx(rng, n)),
                     2 => EOp::ZeroizedCopyEncoded(idx(rng, n)),
